@@ -27,7 +27,7 @@ def case(draw, tier):
     for _ in range(n):
         op = draw(st.sampled_from(["S", "BS", "Vac", "D", "MeasureX", "MeasureFock", "R", "Z"]))
         k = draw(st.sampled_from([1, 1, 1, 2, 2, 3]))
-        modes = [S.F1(A.Num("int", str(draw(st.one_of(st.integers(0, nmodes - 1), st.integers(0, nmodes - 1), st.sampled_from([1, 10, 11, 12, 2, 20, 21, 100])))))) for _ in range(k)]
+        modes = [S.F1(A.Num("int", str(draw(st.one_of(st.integers(0, nmodes - 1), st.integers(0, nmodes - 1), st.sampled_from([1, 10, 11, 12, 2, 20, 21, 100]), st.sampled_from([2 ** 53, 2 ** 53 + 1, 2 ** 53 + 2, 2 ** 60 + 1, 2 ** 60 + 2])))))) for _ in range(k)]
         args = None
         c = draw(st.integers(0, 5))
         if c >= 2:
